@@ -182,6 +182,7 @@ func classify(prop string, o *outcome) (nontrivial bool, feature uint64, classes
 	add(anyPrefix(f, "apply-ambiguous"), "apply-ambiguous")
 	add(o.leftover != "", "leftover-goroutines")
 	add(r.P.LatencyMs > 0, "link-latency")
+	add(has("fresh-server-joins"), "fresh-server-joins")
 	add(has("acked-entry-applied-in-one-batch-behind-an-inherited-command"), "acked-entry-batched-behind-inherited-command")
 	add(has("apply-ok"), "apply-ok")
 	switch prop {
@@ -327,6 +328,7 @@ func TestC08(t *testing.T)     { runProfile(t, "C08", "clients") }
 func TestC09(t *testing.T)     { runProfile(t, "C09", "verify") }
 func TestC11(t *testing.T)     { runProfile(t, "C11", "snapshot") }
 func TestC12(t *testing.T)     { runProfile(t, "C12", "converge") }
+func TestC12Join(t *testing.T) { runProfile(t, "C12", "membership") }
 func TestC13(t *testing.T)     { runProfile(t, "C13", "lease") }
 func TestC13Long(t *testing.T) { runProfile(t, "C13", "leaselong") }
 func TestC14(t *testing.T)     { runProfile(t, "C14", "prevote") }
